@@ -158,7 +158,7 @@ RoundTripOf(v) ==
 RoundTrip == RoundTripOf(rroot) /\ RoundTripOf(raux)
 
 \* the parser's trees satisfy the representation invariants the mutation API relies on
-SInv == Refines /\ MapOk /\ CapOk /\ LookupOk /\ SLedgerOk /\ EqOk /\ ParseOk /\ RoundTrip
+SInv == Refines /\ MapOk /\ CapOk /\ LookupOk /\ SLedgerOk /\ EqOk /\ OwnOk /\ ParseOk /\ RoundTrip
 \* for behaviour generation (RoundTrip and EqOk are expensive on large trees and are model-checked exhaustively instead)
-SInvLight == Refines /\ MapOk /\ CapOk /\ SLedgerOk /\ ParseOk
+SInvLight == Refines /\ MapOk /\ CapOk /\ SLedgerOk /\ OwnOk /\ ParseOk
 =============================================================================
